@@ -311,6 +311,8 @@ struct Agg {
     harness_errors: Vec<String>,
     stream_bytes: u64,
     rand_drawn: u64,
+    seed_hashes: Vec<(u64, u64)>,
+    quiche_recv_errs: BTreeMap<String, u64>,
 }
 
 fn summarize(plan: &Plan, o: &RunOutput, v: &Verdict) -> serde_json::Value {
@@ -413,9 +415,13 @@ pub fn check(a: &CheckArgs) -> i32 {
                     let seed = base.wrapping_add(i);
                     started.lock().unwrap().insert(w, (seed, Instant::now()));
                     let plan = plan_for(seed);
+                    let t_plan = Instant::now();
                     let (o1, v1) = run_plan(&plan, false);
                     let (o2, v2) = run_plan(&plan, false);
                     started.lock().unwrap().remove(&w);
+                    if t_plan.elapsed() > Duration::from_secs(4) && std::env::var("VERIF_TRACE_SLOW").is_ok() {
+                        eprintln!("slow plan: seed {seed} wall {:?} sim {} ms datagrams {} bytes {}", t_plan.elapsed(), o1.end_ns / 1_000_000, o1.net.log.len(), plan.total_bytes());
+                    }
                     let repro = v1.trace_hash == v2.trace_hash;
                     let mut g = agg.lock().unwrap();
                     g.plans += 1;
@@ -435,15 +441,21 @@ pub fn check(a: &CheckArgs) -> i32 {
                     if !v1.violations.is_empty() || !v2.violations.is_empty() {
                         g.violation_repro.insert(seed, repro);
                     }
+                    // budget exceeded in either execution (the wall-clock backstop is not
+                    // deterministic): no verdict, not counted, not an irreproducibility
+                    if v1.slow || v2.slow {
+                        g.slow.push(seed);
+                        continue;
+                    }
                     if !repro {
                         g.irreproducible.push(seed);
                         continue;
                     }
-                    if v1.slow {
-                        g.slow.push(seed);
-                        continue;
-                    }
                     g.reproducible += 1;
+                    g.seed_hashes.push((seed, v1.trace_hash));
+                    for (k, n) in &o1.app.q.recv_errs {
+                        *g.quiche_recv_errs.entry(k.clone()).or_insert(0) += n;
+                    }
                     g.sim_time_ns += 2 * o1.end_ns as u128;
                     g.all_hashes.insert(v1.trace_hash);
                     if v1.nontrivial {
@@ -504,6 +516,12 @@ pub fn check(a: &CheckArgs) -> i32 {
 
     let g = std::mem::take(&mut *agg.lock().unwrap());
     let search_wall = t0.elapsed().as_secs_f64();
+    // determinism across processes / worker counts: dump (seed, trace hash) for diffing
+    if let Ok(path) = std::env::var("VERIF_HASH_DUMP") {
+        let mut lines: Vec<String> = g.seed_hashes.iter().map(|(s, h)| format!("{s} {h:016x}")).collect();
+        lines.sort();
+        let _ = std::fs::write(path, lines.join("\n") + "\n");
+    }
     if std::env::var("VERIF_SIGS").is_ok() {
         let mut c: BTreeMap<(String, String), (u64, u64)> = BTreeMap::new();
         for (seed, v) in &g.violations {
@@ -526,7 +544,7 @@ pub fn check(a: &CheckArgs) -> i32 {
         let (_o2, mv2) = run_plan(&min, false);
         let x = mv.violations.iter().find(|x| x.oracle == v.oracle).cloned().unwrap_or(v.clone());
         let doc = replay_doc(seed, &min, &original, &x, mv.trace_hash, mv.trace_hash == mv2.trace_hash);
-        let path = simkit::write_replay_doc("C07", &format!("{seed}"), &doc);
+        let path = simkit::write_replay_doc("C07", &format!("{seed}-{}", v.oracle.trim_start_matches("c07.").replace('.', "_")), &doc);
         println!("note: {REPLAY_NOTE}");
         replay_paths.push(path.clone());
         path
@@ -558,6 +576,7 @@ pub fn check(a: &CheckArgs) -> i32 {
         "reach_probes": g.probes,
         "reach_probe_runs": g.probe_runs,
         "roles": g.roles,
+        "quiche_recv_errors_by_kind": g.quiche_recv_errs,
         "config_dimensions_seen": dims,
         "quiche_random_bytes_drawn_from_seeded_stream": g.rand_drawn,
         "components": {
@@ -611,7 +630,7 @@ pub fn check(a: &CheckArgs) -> i32 {
         );
     }
     if !g.slow.is_empty() {
-        eprintln!("HARNESS-WARNING: {} plans hit the virtual-time cap while still progressing (excluded): seeds {:?}", g.slow.len(), g.slow.iter().take(12).collect::<Vec<_>>());
+        eprintln!("HARNESS-WARNING: {} plans exceeded the datagram budget or hit the virtual-time cap while still progressing (excluded, no verdict): seeds {:?}", g.slow.len(), g.slow.iter().take(12).collect::<Vec<_>>());
     }
     if exit == 0 {
         if !g.harness_errors.is_empty() {
